@@ -372,23 +372,28 @@ impl UnitGroup {
     }
 
     pub fn validate_unit(self, unit: Option<Unit>, extra_unit: Option<Unit>) -> TemporalResult<()> {
-        // TODO: Determine proper handling of Auto.
+        let Some(unit) = unit else {
+            return Ok(());
+        };
+        // `auto` (or any other extra value) is a valid value only for the option that names it.
+        if Some(unit) == extra_unit {
+            return Ok(());
+        }
         match self {
-            UnitGroup::Date => match unit {
-                Some(unit) if !unit.is_time_unit() => Ok(()),
-                None => Ok(()),
-                _ if unit == extra_unit => Ok(()),
-                _ => Err(TemporalError::range()
-                    .with_message("Unit was not part of the date unit group.")),
-            },
-            UnitGroup::Time => match unit {
-                Some(unit) if unit.is_time_unit() => Ok(()),
-                None => Ok(()),
-                _ if unit == extra_unit => Ok(()),
-                _ => Err(TemporalError::range()
-                    .with_message("Unit was not part of the time unit group.")),
-            },
-            UnitGroup::DateTime => Ok(()),
+            UnitGroup::Date if unit.is_date_unit() => Ok(()),
+            UnitGroup::Date => {
+                Err(TemporalError::range()
+                    .with_message("Unit was not part of the date unit group."))
+            }
+            UnitGroup::Time if unit.is_time_unit() => Ok(()),
+            UnitGroup::Time => {
+                Err(TemporalError::range()
+                    .with_message("Unit was not part of the time unit group."))
+            }
+            UnitGroup::DateTime if unit != Unit::Auto => Ok(()),
+            UnitGroup::DateTime => {
+                Err(TemporalError::range().with_message("auto is not a valid value for this unit."))
+            }
         }
     }
 }
